@@ -142,6 +142,8 @@ enum Task {
     Attach(usize),
     Decl(usize, usize),
     Attr(usize, usize),
+    /// attach the second half of a text node that is being built from two pieces
+    Piece2(usize),
 }
 
 fn name_id(x: &mut Xot, n: &crate::model::Nm) -> xot::NameId {
@@ -169,6 +171,20 @@ fn build_stepwise(x: &mut Xot, d: &ADoc, rng: &mut Rng, cons_off: bool, stats: &
             }
             for k in 0..f.elems[ei].attrs.len() {
                 pending.push(Task::Attr(i, k));
+            }
+        }
+    }
+    // with consolidation on, a text node may be built from two pieces that the store merges
+    let mut second_piece: Vec<Option<String>> = vec![None; n];
+    if !cons_off {
+        for i in 0..n {
+            if let AKind::Text(t) = &f.nodes[i].kind {
+                let chars: Vec<char> = t.chars().collect();
+                if chars.len() >= 2 && rng.pct(30) {
+                    let mid = rng.range(1, chars.len() - 1);
+                    second_piece[i] = Some(chars[mid..].iter().collect());
+                    pending.push(Task::Piece2(i));
+                }
             }
         }
     }
@@ -211,6 +227,7 @@ fn build_stepwise(x: &mut Xot, d: &ADoc, rng: &mut Rng, cons_off: bool, stats: &
                 }
                 Task::Decl(i, k) => handle[i].is_some() && decl_done[i] == k,
                 Task::Attr(i, k) => handle[i].is_some() && attr_done[i] == k,
+                Task::Piece2(i) => attached[i],
             })
             .collect();
         if ready.is_empty() {
@@ -272,8 +289,12 @@ fn build_stepwise(x: &mut Xot, d: &ADoc, rng: &mut Rng, cons_off: bool, stats: &
                         x.new_element(nm)
                     }
                     AKind::Text(t) => {
-                        log.push(format!("#{} = new_text({:?})", i, t));
-                        x.new_text(t)
+                        let first: String = match &second_piece[i] {
+                            Some(second) => t[..t.len() - second.len()].to_string(),
+                            None => t.clone(),
+                        };
+                        log.push(format!("#{} = new_text({:?})", i, first));
+                        x.new_text(&first)
                     }
                     AKind::Comment(t) => {
                         log.push(format!("#{} = new_comment({:?})", i, t));
@@ -340,6 +361,37 @@ fn build_stepwise(x: &mut Xot, d: &ADoc, rng: &mut Rng, cons_off: bool, stats: &
                 if !f.nodes[i].kids.is_empty() && f.nodes[i].kids.iter().any(|k| attached[*k]) {
                     stats.inc("probe/c20_subtree_attached_bottom_up");
                 }
+            }
+            Task::Piece2(i) => {
+                let second = second_piece[i].clone().unwrap();
+                let p = f.nodes[i].parent.unwrap();
+                let sibs = &f.nodes[p].kids;
+                let pos = sibs.iter().position(|k| *k == i).unwrap();
+                let right = sibs[pos + 1..].iter().find(|k| attached[**k]).copied();
+                let t2 = x.new_text(&second);
+                let first = handle[i].unwrap();
+                let mut methods: Vec<u8> = vec![0];
+                if right.is_some() {
+                    methods.push(1);
+                } else {
+                    methods.push(2);
+                }
+                stats.inc("probe/c20_text_built_from_two_pieces");
+                let r = match *rng.pick(&methods) {
+                    0 => {
+                        log.push(format!("insert_after(#{}, new_text({:?}))", i, second));
+                        x.insert_after(first, t2)
+                    }
+                    1 => {
+                        log.push(format!("insert_before(#{}, new_text({:?}))", right.unwrap(), second));
+                        x.insert_before(handle[right.unwrap()].unwrap(), t2)
+                    }
+                    _ => {
+                        log.push(format!("append(#{}, new_text({:?}))", p, second));
+                        x.append(handle[p].unwrap(), t2)
+                    }
+                };
+                r.map_err(|e| format!("{}: {:?}", log.last().unwrap(), e))?;
             }
             Task::Decl(i, k) => {
                 let ei = if let AKind::Elem(ei) = f.nodes[i].kind { ei } else { unreachable!() };
